@@ -9,6 +9,6 @@ git -C /repo archive HEAD | tar -x -C "$d"
 if ! git -C "$d" init -q 2>/dev/null; then :; fi
 ( cd "$d" && git apply $rev --whitespace=nowarn "$patch" ) || { echo "PATCH-DOES-NOT-APPLY $patch"; rm -rf "$d"; exit 3; }
 for p in "$@"; do
-  /verif/check "$p" --root "$d" --no-evidence | grep -E "VIOLATION|ANALYSIS-ERROR|rule=|exit [0-9]" | grep -v "^VIOLATION" | cut -c1-400 | head -${MAXL:-8}
+  /verif/check "$p" --root "$d" --no-evidence | grep -E "VIOLATION|ANALYSIS-ERROR|rule=|exit [0-9]" | grep -v "^VIOLATION\|^KNOWN-FINDING" | cut -c1-400 | head -${MAXL:-8}
 done
 rm -rf "$d"
